@@ -39,25 +39,30 @@ func c07U(l []uint64) uint64 {
 	return v
 }
 
-const c07Cap = 64 // the map seam refuses to record more calls than this (no generated request needs more than 48)
-
+// The recording map seam has a failure budget K chosen by the case: it accepts K calls and fails on call K+1
+// with c07ErrSeam.  Every call (also the failing one) is recorded.  A mapper that keeps calling after the seam
+// failed is stopped by a panic a little later (recovered and logged as res = "panic").
 type c07Machine struct {
-	enc    *json.Encoder
-	pairs  [][2][4]int
-	capped bool
-	n      int
+	enc      *json.Encoder
+	pairs    [][2][4]int
+	budget   int
+	seamfail bool
+	n        int
 }
 
-var c07ErrCap = &kernel.Error{Module: "verif", Message: "map seam cap reached"}
+var c07ErrSeam = &kernel.Error{Module: "verif", Message: "map seam budget used up"}
 
 func c07New(out *os.File) *c07Machine {
 	m := &c07Machine{enc: json.NewEncoder(out)}
 	mapFn = func(page mm.Page, frame mm.Frame, _ PageTableEntryFlag) *kernel.Error {
-		if len(m.pairs) >= c07Cap {
-			m.capped = true
-			return c07ErrCap
+		if len(m.pairs) > m.budget+8 {
+			panic("verif: mapper ignores the map seam's error")
 		}
 		m.pairs = append(m.pairs, [2][4]int{c07W(uint64(page)), c07W(uint64(frame))})
+		if len(m.pairs) > m.budget {
+			m.seamfail = true
+			return c07ErrSeam
+		}
 		return nil
 	}
 	earlyReserveRegionFn = EarlyReserveRegion
@@ -74,9 +79,10 @@ func (m *c07Machine) begin() {
 func (m *c07Machine) end() { m.emit(c07Ev{"k": "reset"}) }
 
 // do runs one real call and logs it.  op: "reserve" | "mapregion" | "identity".
-func (m *c07Machine) do(op string, size, frame uint64) {
+func (m *c07Machine) do(op string, size, frame uint64, budget int) {
 	m.pairs = [][2][4]int{}
-	m.capped = false
+	m.seamfail = false
+	m.budget = budget
 	e := c07Ev{"k": op, "size": c07W(size)}
 	var (
 		ret uint64
@@ -103,7 +109,9 @@ func (m *c07Machine) do(op string, size, frame uint64) {
 			p, err = IdentityMapRegion(mm.Frame(frame), uintptr(size), FlagPresent|FlagRW)
 			ret = uint64(p)
 		}
-		if err != nil {
+		if err == c07ErrSeam {
+			res, ret = "seamerr", 0
+		} else if err != nil {
 			res, ret = "err", 0
 		} else {
 			res = "ok"
@@ -116,8 +124,9 @@ func (m *c07Machine) do(op string, size, frame uint64) {
 	} else {
 		e["f"] = c07W(frame)
 		e["page"] = c07W(ret)
+		e["budget"] = budget
 		e["pairs"] = m.pairs
-		e["capped"] = m.capped
+		e["seamfail"] = m.seamfail
 	}
 	m.emit(e)
 }
@@ -140,6 +149,7 @@ type c07Case struct {
 		Op   string   `json:"op"`
 		Size []uint64 `json:"size"`
 		F    []uint64 `json:"f"`
+		K    int      `json:"budget"`
 	} `json:"script"`
 }
 
@@ -166,7 +176,7 @@ func TestVerifC07Cases(t *testing.T) {
 		}
 		m.begin()
 		for _, o := range c.Script {
-			m.do(o.Op, c07U(o.Size), c07U(o.F))
+			m.do(o.Op, c07U(o.Size), c07U(o.F), o.K)
 		}
 		m.end()
 		n++
@@ -177,7 +187,7 @@ func TestVerifC07Cases(t *testing.T) {
 // c07Size draws a request size; c is the current cursor (input selection only).
 func c07Size(rng *rand.Rand, c uint64) uint64 {
 	small := []uint64{0, 1, 2, 4095, 4096, 4097, 8191, 8192, 8193}
-	switch rng.Intn(8) {
+	switch rng.Intn(10) {
 	case 0:
 		return small[rng.Intn(len(small))]
 	case 1:
@@ -192,6 +202,15 @@ func c07Size(rng *rand.Rand, c uint64) uint64 {
 		return -uint64(1 + rng.Intn(8200)) // near 2^64
 	case 6:
 		return 1<<63 + uint64(rng.Intn(3)) - 1
+	case 7:
+		// satisfiable huge sizes: m * 2^32 pages + a few pages (+- a byte): page count with low 32 bits zero / small
+		return uint64(1+rng.Intn(6))<<44 + uint64(rng.Intn(7))*4096 + uint64(rng.Intn(3)) - 1
+	case 8:
+		// huge page counts of any shape, up to the remaining address space
+		if c > 0 {
+			return rng.Uint64() % c
+		}
+		return 0
 	default:
 		return rng.Uint64()
 	}
@@ -208,35 +227,25 @@ func TestVerifC07Random(t *testing.T) {
 	out := c07Out(t)
 	defer out.Close()
 	m := c07New(out)
+	budgets := []int{0, 1, 2, 5, 17, 48}
 	for tr := 0; tr < ntr; tr++ {
 		m.begin()
 		// some traces start by eating most of the address space so that the cursor gets small
 		if rng.Intn(3) == 0 {
-			m.do("reserve", uint64(earlyReserveLastUsed)-uint64(rng.Intn(64))*4096-uint64(rng.Intn(2)), 0)
+			m.do("reserve", uint64(earlyReserveLastUsed)-uint64(rng.Intn(64))*4096-uint64(rng.Intn(2)), 0, 0)
 		}
 		nops := 1 + rng.Intn(30)
 		for i := 0; i < nops; i++ {
-			c := uint64(earlyReserveLastUsed)
-			size := c07Size(rng, c)
+			size := c07Size(rng, uint64(earlyReserveLastUsed))
 			frame := uint64(rng.Int63n(1 << 40))
-			pages := size/4096 + 1
-			wraps := size > ^uint64(4095)
+			k := budgets[rng.Intn(len(budgets))]
 			switch rng.Intn(4) {
 			case 0, 1:
-				m.do("reserve", size, 0)
+				m.do("reserve", size, 0, 0)
 			case 2:
-				// huge-but-satisfiable region requests would map 2^40 pages: not generated (DESIGN 4.5 G)
-				if pages <= 48 || wraps || size > c {
-					m.do("mapregion", size, frame)
-				} else {
-					m.do("reserve", size, 0)
-				}
+				m.do("mapregion", size, frame, k)
 			case 3:
-				if pages <= 48 || wraps {
-					m.do("identity", size, frame)
-				} else {
-					m.do("reserve", size, 0)
-				}
+				m.do("identity", size, frame, k)
 			}
 		}
 		m.end()
